@@ -43,10 +43,16 @@ pub fn segments(rng: &mut Rng, max: usize) -> Vec<Seg> {
     for _ in 0..n {
         match rng.below(10) {
             0..=3 => segs.push(Seg::Lit(literal_chunk(rng))),
-            4 => segs.push(Seg::Shell(format!("{}{}", rng.pick(&["HOME", "x", "a:-{b}", "{}", "1"]), ""))),
+            4 => segs.push(Seg::Shell(format!("{}{}", rng.pick(&["HOME", "x", "a:-{b}", "{}", "1", "p%\\", "a\\", "b\\\\", "c:-{\\}"]), ""))),
             _ => {
                 // repeated sections and sections differing in one argument
-                let ops = if !pool.is_empty() && rng.chance(2, 5) {
+                let ops = if !pool.is_empty() && rng.chance(1, 6) {
+                    // an earlier section followed by one or two more operations (the earlier one is a proper prefix)
+                    let mut o = rng.pick(&pool).clone();
+                    let extra = match rng.below(6) { 0 => Op::Upper, 1 => Op::Sort(SDir::Desc), 2 => Op::Join("-".into()), 3 => Op::Unique, 4 => Op::Map(vec![Op::Upper]), _ => Op::Append("!".into()) };
+                    o.push(extra); if rng.chance(1, 3) { o.push(Op::Join("+".into())); }
+                    o
+                } else if !pool.is_empty() && rng.chance(2, 5) {
                     // the same section again, or a near-duplicate differing in exactly one field
                     let mut o = rng.pick(&pool).clone();
                     if rng.chance(2, 3) && !o.is_empty() { let k = rng.below(o.len()); o[k] = tweak_op(rng, &o[k]); }
@@ -243,6 +249,17 @@ pub fn c10(opts: &Opts) -> Report {
                      vec![("template", text.clone()), ("input", x.clone()), ("route", route.to_string()), ("observed", on.show()), ("expected", off.show()), ("theorem", "C10_transparent".into())]);
                 return;
             }
+            // "the returned value OR ERROR is identical": when both runs fail, with the same message
+            if on == Out::Err && off == Out::Err {
+                let msg = |d: bool| match real::parse_with_debug(&text, Some(d)) { real::Parsed::Ok(t) => match real::format_msg(&t, &x) { Ok(Err(e)) => Some(e), _ => None }, _ => None };
+                let (m_off, m_on) = (msg(false), msg(true));
+                ctx.rep.bump("error_text_compared");
+                if m_off.is_some() && m_on.is_some() && m_off != m_on {
+                    viol(ctx, "property", format!("C10: format({text:?}, {x:?}) fails with {:?} when traced but with {:?} when not", m_on.clone().unwrap_or_default(), m_off.clone().unwrap_or_default()),
+                         vec![("template", text.clone()), ("input", x.clone()), ("observed", m_on.unwrap_or_default()), ("expected", m_off.unwrap_or_default()), ("theorem", "C10_transparent".into())]);
+                    return;
+                }
+            }
             // the structured entry point under tracing: several (or no) inputs per section
             if i % 3 == 1 {
                 let nsec = secs.iter().filter(|s| matches!(s, Section::Sec(_))).count();
@@ -283,6 +300,20 @@ pub fn c18(opts: &Opts) -> Report {
     run_parallel(opts, "C18",
         "templates x shapes of the inputs array (fewer / equal / more entries than sections; empty, single and multiple inputs per section; repeated inputs across sections) x separator arrays (shorter, equal, longer); format_with_inputs is compared with literals + separator-join of format({S_k}, input) through the public API and with the model; non-trivial when the template has >= 2 sections; distinct by (template, inputs, separators)",
         opts.cases(3_000, 100_000), &|ctx, i| {
+            if i % 100 == 37 {
+                // inputs that are slices of ONE buffer (a line and its first word, a text and its empty prefix)
+                let line = format!("{} {}", gens::word(&mut ctx.rng), gens::word(&mut ctx.rng));
+                let cut = line.find(' ').unwrap();
+                let text = "first={upper} all={upper} none=[{upper}]";
+                if let real::Parsed::Ok(tpl) = real::parse(text) {
+                    let a: &[&str] = &[&line[..cut]]; let b: &[&str] = &[&line[..]]; let c: &[&str] = &[&line[..0]];
+                    let got = match real::guarded(&|| "fwi-slices".to_string(), || tpl.format_with_inputs(&[a, b, c], &[])) { Ok(Ok(s)) => Out::Ok(s), Ok(Err(_)) => Out::Err, Err(()) => Out::Panic };
+                    let want = Out::Ok(format!("first={} all={} none=[]", line[..cut].to_uppercase(), line.to_uppercase()));
+                    ctx.rep.eval(); ctx.rep.bump("slices_of_one_buffer");
+                    if got != want { viol(ctx, "property", format!("C18: format_with_inputs({text:?}) on slices of {line:?} = {} but each section on its own input gives {}", got.show(), want.show()), vec![("template", text.into()), ("inputs", format!("[[&line[..{cut}]], [&line], [&line[..0]]] of {line:?}")), ("observed", got.show()), ("expected", want.show()), ("theorem", "C18_memo_isolation".into())]); }
+                }
+                return;
+            }
             if i % 100 == 17 {
                 // one section with MANY inputs (not a multiple of any worker count), separators of several bytes
                 let n = *ctx.rng.pick(&[257usize, 259, 1003, 65, 4097]);
@@ -371,6 +402,9 @@ pub fn c20(opts: &Opts) -> Report {
         opts.cases(3_000, 100_000), &|ctx, i| {
             let text = match i % 5 {
                 0 => gens::unicode_text(&mut ctx.rng, 10),
+                // blocks held together by the smallest glue: one or two white-space characters, or a lone '!'
+                4 if i % 10 == 9 => { let n = 2 + ctx.rng.below(3); let mut t = String::new(); if ctx.rng.chance(1, 3) { t.push_str(*ctx.rng.pick(&["!", "! ", " ", "!x "])); }
+                    for k in 0..n { if k > 0 { t.push_str(*ctx.rng.pick(&[" ", "\n", "  ", "\u{a0}", "\t", "\r\n", " \n", ", ", "!"])); } t.push_str(&print_block(&wf_pipeline(&mut ctx.rng, 2))); } t }
                 1 => { let (t, _) = assemble(&segments(&mut ctx.rng, 6)); let cs: Vec<char> = t.chars().collect(); if cs.is_empty() { t } else { let p = ctx.rng.below(cs.len()); let mut c2 = cs.clone(); c2.insert(p, *ctx.rng.pick(&['{', '}', '$', '\\'])); c2.into_iter().collect() } }
                 _ => assemble(&segments(&mut ctx.rng, 8)).0,
             };
@@ -421,8 +455,14 @@ pub fn c20(opts: &Opts) -> Report {
             // debug accessor
             let d = ctx.rng.chance(1, 2);
             let t3 = tpl.clone().with_debug(d); if t3.is_debug() != d { bad = Some("with_debug not reflected".into()); }
+            // a clone has its own flag: setting it on the clone leaves the source as it was, and the other way round
+            { let before = tpl.is_debug(); let c1 = tpl.clone().with_debug(!before); if tpl.is_debug() != before || c1.is_debug() == before { bad = Some("with_debug on a clone changed the source template".into()); }
+              let mut src = tpl.clone(); let c2 = src.clone(); src.set_debug(!c2.is_debug()); if c2.is_debug() == src.is_debug() { bad = Some("set_debug on the source changed an earlier clone".into()); } }
             let mut t4 = tpl.clone(); t4.set_debug(!d); t4.set_debug(d); if t4.is_debug() != d { bad = Some("last set_debug does not win".into()); }
             if sections_from_real(&t3) != secs || t3.template_string() != text { bad = Some("with_debug changed the structure".into()); }
+            // both text accessors, in every debug state an object can be put into
+            for dd in [true, false] { let mut t5 = tpl.clone(); t5.set_debug(dd); let t6 = tpl.clone().with_debug(dd);
+                if t5.to_string() != text || t6.to_string() != text || format!("{t5}") != t5.template_string() { bad = Some(format!("Display differs from the text after the debug flag was set to {dd}")); } }
             if let Some(b) = bad {
                 viol(ctx, "property", format!("C20: {text:?}: {b}"), vec![("template", text.clone()), ("observed", b), ("theorem", "C20_*".into())]);
                 return;
@@ -440,6 +480,14 @@ pub fn c20(opts: &Opts) -> Report {
             if whole != expected {
                 viol(ctx, "property", format!("C20: format({text:?}, {x:?}) = {} but the parts listed by get_section_info give {}", whole.show(), expected.show()), vec![("template", text.clone()), ("input", x), ("observed", whole.show()), ("expected", expected.show()), ("theorem", "C20_concat_law".into())]);
                 return;
+            }
+            // the flag switches tracing only: the same object with the flag set either way formats to the same value
+            for dd in [true, false] {
+                let got = real::format(&tpl.clone().with_debug(dd), &x);
+                if got != whole {
+                    viol(ctx, "property", format!("C20: format({text:?}, {x:?}) = {} but after with_debug({dd}) it is {}", whole.show(), got.show()), vec![("template", text.clone()), ("input", x.clone()), ("debug", dd.to_string()), ("observed", got.show()), ("expected", whole.show()), ("theorem", "C20_debug_accessor / C10_debug_transparent".into())]);
+                    return;
+                }
             }
             ctx.rep.bump("accepted");
             if i < 3 { ctx.rep.sample(format!("{text:?} -> {} parts, {} sections", secs.len(), nsec)); }
@@ -488,7 +536,8 @@ pub fn c05(opts: &Opts) -> Report {
             let mut inputs: Vec<String> = vec![COLLIDE_A.into(), COLLIDE_B.into(), "a,b,c".into(), "a,b,d".into(), "a;b;c".into(), "hello world".into(), "HELLO world".into(), "how o w\nHow".into(), String::new(), "k1,k2 k3".into(), "a;b c;d e".into(),
                 // texts that END with the separator: the last part is empty, whatever was looked up before
                 "p,q,".into(), "a,b,".into(), ",".into(), "x;".into(),
-                "ITEM,item,stem".into(), "tango,mango".into(), "b\u{1f}x".into(), "x".into(), "b\u{0}x".into()];
+                "ITEM,item,stem".into(), "tango,mango".into(), "b\u{1f}x".into(), "x".into(), "b\u{0}x".into(),
+                "  MiXed  ".into(), "\u{1b}]0;title\u{1b}".into(), "\u{1b}]8;;\u{1b}".into(), "\u{1b}Pq#0\u{1b}".into(), "\u{1b}[31mOK\u{1b}[0m DONE".into(), "x\u{1b}[".into(), "\u{1b}".into()];
             if i % 3 == 0 { inputs.push(big_input(&mut ctx.rng)); inputs.push(big_input(&mut ctx.rng)); }
             let templates: Vec<(String, Vec<Section>)> = {
                 let mut v: Vec<Vec<Seg>> = vec![
@@ -533,12 +582,62 @@ pub fn c05(opts: &Opts) -> Report {
                     vec![Seg::Sec(vec![Op::Split(",".into(), Range::Range(None, None, false))])],
                     vec![Seg::Sec(vec![Op::Split(",".into(), Range::Range(None, None, false)), Op::Join(";".into())])],
                     vec![Seg::Sec(vec![Op::Split(",".into(), Range::Range(None, None, false)), Op::Map(vec![Op::Split("".into(), Range::Range(None, None, false)), Op::Join(".".into())])])],
+                    // one multi-byte fill character at narrow and wide widths, in whatever order the history brings them
+                    vec![Seg::Sec(vec![Op::Pad(6, '█', PDir::Left)])], vec![Seg::Sec(vec![Op::Pad(12, '█', PDir::Left)])], vec![Seg::Sec(vec![Op::Pad(41, '█', PDir::Both)])],
+                    vec![Seg::Sec(vec![Op::Pad(5, 'é', PDir::Right)])], vec![Seg::Sec(vec![Op::Pad(30, 'é', PDir::Right)])], vec![Seg::Sec(vec![Op::Pad(9, '😀', PDir::Left)])], vec![Seg::Sec(vec![Op::Pad(33, '😀', PDir::Both)])],
+                    // three and four general sections with literals in between (both entry points are used on one object below)
+                    vec![Seg::Sec(vec![Op::Upper]), Seg::Lit(" ".into()), Seg::Sec(vec![Op::Lower]), Seg::Lit(" ".into()), Seg::Sec(vec![Op::Trim(String::new(), TDir::Both)])],
+                    vec![Seg::Lit("a=".into()), Seg::Sec(vec![Op::Reverse]), Seg::Lit(" b=".into()), Seg::Sec(vec![Op::Upper]), Seg::Lit(" c=".into()), Seg::Sec(vec![Op::Append("!".into())]), Seg::Lit(" d=".into()), Seg::Sec(vec![Op::Lower])],
+                    // a stateful-looking operation: control sequences that are cut off, next to complete ones
+                    vec![Seg::Sec(vec![Op::StripAnsi])],
+                    vec![Seg::Lit("[".into()), Seg::Sec(vec![Op::StripAnsi]), Seg::Lit("]".into())],
                 ];
                 for _ in 0..3 { v.push(segments(&mut ctx.rng, 4)); }
                 v.iter().map(|s| assemble(s)).collect()
             };
             hooks::clear_caches(); hooks::reset_counters();
             ctx.drv.request("CLEAR");
+            if i % 50 == 7 {
+                // more distinct regex patterns than any plausible cache bound, then the first ones again
+                let x = "k0,k1,k2,k77,k150"; let n = 200;
+                let tp = |k: usize| vec![Section::Sec(vec![Op::Split(",".into(), Range::Range(None, None, false)), Op::Filter(format!("^k{k}$")), Op::Join(",".into())])];
+                for round in 0..2 { for k in (0..n).chain(0..3) {
+                    if round == 1 && k > 160 { continue; }
+                    let secs = tp(k); let text = match &secs[0] { Section::Sec(o) => print_block(o), _ => String::new() };
+                    let got = real::parse_format(&text, x);
+                    let want = Out::Ok(if x.split(',').any(|w| w == format!("k{k}")) { format!("k{k}") } else { String::new() });
+                    ctx.rep.bump("calls");
+                    if got != want { viol(ctx, "property", format!("C05: after {} other patterns, format({text:?}, {x:?}) = {} but alone it is {}", round * n + k, got.show(), want.show()), vec![("template", text.clone()), ("input", x.into()), ("history_seed", format!("{}:{}", opts.seed, i)), ("observed", got.show()), ("expected", want.show()), ("theorem", "C05_format_history".into())]); return; }
+                } }
+                ctx.rep.bump("many_patterns_histories");
+                // inputs of exactly 65535 / 65536 / 65537 bytes, split twice
+                for len in [65_535usize, 65_536, 65_537] { for parts in [1usize, 3] {
+                    let mut xin = "ab,".repeat(parts - 1); xin.push_str(&"z".repeat(len - xin.len()));
+                    for rep in 0..3 {
+                        let got = real::parse_format("{split:,:..|join:+}", &xin); let want = Out::Ok(xin.replace(',', "+"));
+                        let g2 = real::parse_format("{split:,:-1}", &xin); let w2 = Out::Ok("z".repeat(len - 3 * (parts - 1)));
+                        ctx.rep.bump("calls");
+                        if got != want || g2 != w2 { viol(ctx, "property", format!("C05: call {rep} on a {len}-byte input with {parts} part(s): split|join {} / last part {}", trunc(&got.show()), trunc(&g2.show())), vec![("template", "{split:,:..|join:+}".into()), ("input_description", format!("'ab,' x {} + 'z' up to {len} bytes", parts - 1)), ("history_seed", format!("{}:{}", opts.seed, i)), ("theorem", "C05_format_history".into())]); return; }
+                    }
+                } }
+            }
+            if i % 10 == 3 {
+                // one fill character after another, each at a narrow width first and at growing and shrinking widths afterwards
+                for fill in ['█', 'é', '日', '😀', '*', 'ß'] { for (k, w) in [6usize, 12, 3, 24, 5, 48, 100, 7, 1030, 9, 2000, 17].iter().enumerate() {
+                    let (d, dn) = [(0, "left"), (1, "right"), (2, "both")][(k + i as usize) % 3];
+                    let x = ["ab", "", "日本語"][k % 3]; let have = x.chars().count(); let need = w.saturating_sub(have);
+                    let (l, r) = match d { 0 => (need, 0), 1 => (0, need), _ => (need / 2, need - need / 2) };
+                    let text = format!("{{pad:{w}:{fill}:{dn}}}");
+                    let got = real::parse_format(&text, x);
+                    let want = Out::Ok(format!("{}{}{}", fill.to_string().repeat(l), x, fill.to_string().repeat(r)));
+                    ctx.rep.bump("calls"); ctx.rep.bump("pad_width_sequences");
+                    if got != want {
+                        viol(ctx, "property", format!("C05: after pads with {fill:?} at other widths, format({text:?}, {x:?}) has {} characters but alone it has {}", got.show().chars().count(), want.show().chars().count()),
+                             vec![("template", text.clone()), ("input", x.to_string()), ("history_seed", format!("{}:{}", opts.seed, i)), ("observed", got.show()), ("expected", want.show()), ("theorem", "C05_format_history".into())]);
+                        return;
+                    }
+                } }
+            }
             if i % 5 == 1 {
                 // template objects that come and go: parse, format a list of 100 items through a map, drop; then the same with
                 // another map body of the same shape.  Nothing of a dropped template may be found again by the next one.
@@ -569,7 +668,9 @@ pub fn c05(opts: &Opts) -> Report {
                 if parsed[ti].is_none() || ctx.rng.chance(1, 3) {
                     parsed[ti] = match real::parse(text) { real::Parsed::Ok(t) => Some(t), _ => None };
                 }
-                let warm = match &parsed[ti] { Some(t) => real::format(t, x), None => Out::Err };
+                // every third call goes through the other entry point with the same text for every section (C18: equal to format)
+                let nsecs = secs.iter().filter(|s| matches!(s, Section::Sec(_))).count();
+                let warm = match &parsed[ti] { Some(t) => if step % 3 == 2 && nsecs > 0 { ctx.rep.bump("calls_through_format_with_inputs"); real::fwi(t, &vec![vec![x.clone()]; nsecs], &vec![" ".to_string(); nsecs]) } else { real::format(t, x) }, None => Out::Err };
                 ctx.rep.bump("calls");
                 // model: cache-free spec, and run_st against the model's persistent caches
                 let (_, spec) = model_format(ctx, false, secs, x);
@@ -648,11 +749,26 @@ pub fn c17(opts: &Opts) -> Report {
                         for r in 0..6 {
                             let small = format!("t{t}r{r}_{},{}", "s".repeat(1500), (0..40).map(|k| format!("t{t}_{k:04}")).collect::<Vec<_>>().join(","));
                             let big = format!("t{t}r{r}_{},{}", "b".repeat(10_500), (0..40).map(|k| format!("u{t}_{k:04}")).collect::<Vec<_>>().join(","));
+                            // the SAME never-seen text of 600+ bytes, first split by every thread at the same moment
+                            let shared = format!("shared{tag}r{r}_{},{}", "y".repeat(600), (0..5).map(|k| format!("s{k:04}")).collect::<Vec<_>>().join(","));
                             bar.wait();
+                            out.push(real::parse_format("{split:,:3}", &shared));
+                            out.push(real::parse_format("{split:,:1..4|join:+}", &shared));
+                            // a separator nobody has used yet, in a pipeline that ends in a list (rendered with that separator)
+                            let usep = format!("q{t}r{r}q");
+                            out.push(real::parse_format(&format!("{{split:{usep}:..|sort}}"), &format!("b{usep}a{usep}c")));
+                            // the same pad character, another width per thread
+                            out.push(real::parse_format(&format!("{{pad:{}:é:left}}", 3 + t * 7 + r), "ab"));
                             for x in [&small, &big] { for _ in 0..3 {
                                 out.push(real::parse_format("{split:,:3}", x));
                                 out.push(real::parse_format("{split:,:1..4|join:+}", x));
                             } }
+                        }
+                        // a pad character nobody has used yet, padded to a different width by every thread at the same moment
+                        for r in 0..48usize {
+                            let ch = char::from_u32(0x4E00 + ((tag as usize * 48 + r) % 20_000) as u32).unwrap_or('字');
+                            bar.wait();
+                            out.push(real::parse_format(&format!("{{pad:{}:{ch}:left}}", 3 + (t * 5 + r) % 60), "ab"));
                         }
                         out
                     }) }).collect();
@@ -660,12 +776,30 @@ pub fn c17(opts: &Opts) -> Report {
                 });
                 hooks::clear_caches();
                 for (t, rs) in results.iter().enumerate() {
-                    if rs.len() != rounds * 3 + per + 6 * 12 { viol(ctx, "property", format!("C17: thread {t} of regex-churn round {i} died"), vec![("round", format!("{}:{}", opts.seed, i)), ("theorem", "C17".into())]); return; }
+                    if rs.len() != rounds * 3 + per + 6 * 16 + 48 { viol(ctx, "property", format!("C17: thread {t} of regex-churn round {i} died"), vec![("round", format!("{}:{}", opts.seed, i)), ("theorem", "C17".into())]); return; }
                     // the long-input calls: the expected value is computed by hand
-                    for (k, o) in rs.iter().enumerate().skip(rounds * 3 + per) {
-                        let j = k - (rounds * 3 + per); let is_big = (j % 12) >= 6; let second = j % 2 == 1;
-                        let pfx = if is_big { 'u' } else { 't' };
-                        let want = if second { Out::Ok(format!("{pfx}{t}_0000+{pfx}{t}_0001+{pfx}{t}_0002")) } else { Out::Ok(format!("{pfx}{t}_0002")) };
+                    for (k, o) in rs.iter().enumerate().skip(rounds * 3 + per + 6 * 16) {
+                        let r = k - (rounds * 3 + per + 6 * 16);
+                        let ch = char::from_u32(0x4E00 + ((tag as usize * 48 + r) % 20_000) as u32).unwrap_or('字');
+                        let w = 3 + (t * 5 + r) % 60;
+                        let want = Out::Ok(format!("{}ab", ch.to_string().repeat(w - 2)));
+                        ctx.rep.bump("concurrent_calls");
+                        if *o != want {
+                            viol(ctx, "property", format!("C17: 16 threads pad 'ab' with the fresh character {ch:?} to different widths at the same moment; thread {t} (width {w}) got {} but alone it is {}", trunc(&o.show()), trunc(&want.show())),
+                                 vec![("template", format!("{{pad:{w}:{ch}:left}}")), ("input", "ab".into()), ("threads", "16".into()), ("round", format!("{}:{}", opts.seed, i)), ("observed", o.show()), ("expected", want.show()), ("theorem", "C17_concurrent_formats".into())]);
+                            return;
+                        }
+                    }
+                    for (k, o) in rs.iter().enumerate().skip(rounds * 3 + per).take(6 * 16) {
+                        let j = k - (rounds * 3 + per); let r = j / 16; let jj = j % 16;
+                        let want = match jj {
+                            0 => Out::Ok("s0002".to_string()), 1 => Out::Ok("s0000+s0001+s0002".to_string()),
+                            2 => { let usep = format!("q{t}r{r}q"); Out::Ok(format!("a{usep}b{usep}c")) }
+                            3 => Out::Ok(format!("{}ab", "é".repeat(3 + t * 7 + r - 2))),
+                            _ => { let q = jj - 4; let is_big = q >= 6; let second = q % 2 == 1; let pfx = if is_big { 'u' } else { 't' };
+                                   if second { Out::Ok(format!("{pfx}{t}_0000+{pfx}{t}_0001+{pfx}{t}_0002")) } else { Out::Ok(format!("{pfx}{t}_0002")) } }
+                        };
+                        let is_big = jj >= 10; let second = jj % 2 == 1; let pfx = if is_big { 'u' } else { 't' };
                         ctx.rep.bump("concurrent_calls");
                         if *o != want {
                             viol(ctx, "property", format!("C17: thread {t}, long input ({}): got {} but alone it is {}", if is_big { "beyond the cache limit" } else { "1.5 KB" }, trunc(&o.show()), want.show()),
@@ -685,6 +819,33 @@ pub fn c17(opts: &Opts) -> Report {
                     }
                 }
                 ctx.rep.bump("regex_churn_rounds"); ctx.rep.nontrivial(&(opts.seed, i));
+                return;
+            }
+            if i % 25 == 13 {
+                // many more threads than cores inside a map at the same moment (one shared template object), next to threads
+                // that strip complete colour sequences while others feed strip_ansi texts that are cut off inside a sequence
+                hooks::clear_caches();
+                ctx.rep.eval();
+                let nmap = 64usize; let nplain = 8usize; let nnoisy = 4usize;
+                let items: Vec<String> = (0..3000).map(|k| format!("w{k}é")).collect();
+                let list = items.join(","); let want_map = Out::Ok(items.iter().map(|w| format!("{:*>12}!", w.to_uppercase())).collect::<Vec<_>>().join(","));
+                let tmap = match real::parse("{split:,:..|map:{upper|pad:12:*:left|append:!}|join:,}") { real::Parsed::Ok(t) => t, _ => return };
+                let bar = std::sync::Barrier::new(nmap + nplain + nnoisy);
+                let bad: Vec<String> = std::thread::scope(|sc| {
+                    let mut hs = Vec::new();
+                    for t in 0..nmap { let (bar, tmap, list, want_map) = (&bar, &tmap, &list, &want_map); hs.push(sc.spawn(move || { bar.wait(); for r in 0..40 { let o = real::format(tmap, list); if o != *want_map { return Some(format!("thread {t} of {nmap}, call {r}: the shared map template over 3000 items gives {}", trunc(&o.show()))); } } None })); }
+                    for t in 0..nplain { let bar = &bar; hs.push(sc.spawn(move || { bar.wait(); for r in 0..400 { let o = real::parse_format("[{strip_ansi}]", "\u{1b}[32mOK\u{1b}[0m DONE"); if o != Out::Ok("[OK DONE]".into()) { return Some(format!("plain thread {t}, call {r}: [{{strip_ansi}}] on a coloured line gives {}", trunc(&o.show()))); } } None })); }
+                    for _ in 0..nnoisy { let bar = &bar; hs.push(sc.spawn(move || { bar.wait(); for r in 0..400 { let x = ["\u{1b}]0;title\u{1b}", "\u{1b}]8;;\u{1b}", "\u{1b}Pq#0\u{1b}", "x\u{1b}[", "\u{1b}"][r % 5]; let _ = real::parse_format("{strip_ansi}", x); } None })); }
+                    hs.into_iter().filter_map(|h| h.join().unwrap_or(Some("a thread died".to_string()))).collect()
+                });
+                ctx.rep.add("concurrent_calls", (nmap * 40 + (nplain + nnoisy) * 400) as u64); ctx.rep.bump("oversubscribed_rounds"); ctx.rep.nontrivial(&(opts.seed, i));
+                if let Some(b) = bad.first() {
+                    viol(ctx, "property", format!("C17: {b}; alone every one of these calls gives its documented result"), vec![("round", format!("{}:{}", opts.seed, i)), ("threads", format!("{}", nmap + nplain + nnoisy)), ("observed", b.clone()), ("theorem", "C17_concurrent_formats".into())]);
+                }
+                // and afterwards, on this thread: a text cut off inside a sequence leaves nothing behind for the next call
+                for x in ["\u{1b}]0;title\u{1b}", "\u{1b}]8;;\u{1b}", "\u{1b}Pq#0\u{1b}"] { let _ = real::parse_format("{strip_ansi}", x);
+                    let o = real::parse_format("[{strip_ansi}]", "\u{1b}[32mOK\u{1b}[0m DONE");
+                    if o != Out::Ok("[OK DONE]".into()) { viol(ctx, "property", format!("C17: after strip_ansi on the cut-off text {x:?}, the next call gives {} instead of [OK DONE]", o.show()), vec![("template", "[{strip_ansi}]".into()), ("round", format!("{}:{}", opts.seed, i)), ("theorem", "C17_concurrent_formats".into())]); } }
                 return;
             }
             let nthreads = 2 + ctx.rng.below(15);
